@@ -174,6 +174,36 @@ def g{k}(x: f32[4]):
 """
             out.append((f"g{k}", src, f"g{k}", not (param == "tensor" and setw), "S4-set_window", [("set_window", "x", setw)]))
             k += 1
+    # S6: the same through a window alias (the alias is a second name for the buffer: its reads must follow
+    # the buffer's precision, whether that was written in the source or set afterwards)
+    for px, py, how in itertools.product(PRECS, PRECS, ["source", "set"]):
+        sx, sy = (px, py) if how == "source" else ("f32", "f32")
+        src = f"""
+@proc
+def g{k}(x: {sx}[4], y: {sy}[4], z: {sx}[4]):
+    w = y[0:4]
+    for i in seq(0, 4):
+        z[i] = x[i] * w[i]
+"""
+        post = [] if how == "source" else [("set_precision", "y", py), ("set_precision", "x", px), ("set_precision", "z", px)]
+        out.append((f"g{k}", src, f"g{k}", px == py, "S6-alias-mixed-expression-" + how, post))
+        k += 1
+    for pa, pb, how in itertools.product(PRECS, PRECS, ["source", "set"]):
+        sa = pa if how == "source" else "f32"
+        src = f"""
+@proc
+def c{k}(d: [{pb}][4]):
+    d[0] = 1.0
+
+@proc
+def g{k}(x: {sa}[8]):
+    w = x[2:6]
+    c{k}(w)
+    c{k}(w[0:4])
+"""
+        post = [] if how == "source" else [("set_precision", "x", pa)]
+        out.append((f"g{k}", src, f"g{k}", pa == pb, "S6-alias-across-call-" + how, post))
+        k += 1
     # S5: direct access to a memory that cannot be read / written
     for mem, op in itertools.product(MEMS, ["write", "read", "reduce"]):
         body = {"write": "t[0] = 1.0", "read": "y[0] = t[0]", "reduce": "t[0] += 1.0"}[op]
